@@ -1,6 +1,6 @@
 (* Run/LexRun.v -- correspondence runner for the lexical formatter and parser models (C02, C05). *)
 From Coq Require Import List Bool NArith.
-From Nv Require Export Model.LexFormatter Model.LexParser Gen.Unicode.
+From Nv Require Export Model.LexFormatter Model.LexParser Model.LexSpec Gen.Unicode.
 Import ListNotations.
 Open Scope N_scope.
 
@@ -85,6 +85,7 @@ Inductive lcase :=
 | LParseC (fmt : N) (input : str) (impl : lres lnarsese)
 | LParseTermC (fmt : N) (input : str) (impl : lres lterm)
 | LDictC (fmt : N) (which : N) (impl : list (str * str))
+| LVocabC (fmt : N) (v : lnarsese) (impl : bool)   (* the domain of C02 as the harness restates it *)
 | LWhitespaceC.      (* the 25 White_Space points = std's char::is_whitespace, all scalars *)
 
 Definition lcase_check (c : lcase) : bool :=
@@ -93,6 +94,7 @@ Definition lcase_check (c : lcase) : bool :=
   | LParseC f input impl => lres_eqb lnarsese_eqb (xlex_parse (lfmt_of f) input) impl
   | LParseTermC f input impl => lres_eqb lterm_eqb (xlex_parse_term (lfmt_of f) input) impl
   | LDictC f which impl => llist_eqb pair_eqb (dict_order (lfmt_of f) which) impl
+  | LVocabC f v impl => Bool.eqb (vocab_ok (lfmt_of f) lex_is_alnum_std v) impl
   | LWhitespaceC => str_eqb (expand_ranges whitespace_ranges) white_space_points
   end.
 
